@@ -206,9 +206,11 @@ func refHeadersAllowed(allowed []string, acrh string, maxItems int) bool {
 //      +2: allowed headers contain the wildcard
 func H_C09(cfg int) {
 	acrhCap, items, ahCap := 8, 2, 4
+	deep := false
 	if cfg >= 100 { // thorough bounds
 		cfg -= 100
 		acrhCap, items, ahCap = 13, 3, 6
+		deep = true // (the second header line stays with the smaller bounds: both together exceed the time budget)
 	}
 	// cfg + 4: the request's own Host is the host the Origin names (a page calling its own server with an Origin header)
 	hostSame := cfg >= 4
@@ -246,7 +248,7 @@ func H_C09(cfg int) {
 	}
 	// a list-valued header may arrive on more than one line: a second Access-Control-Request-Headers line with one name
 	acrh2 := ""
-	if len(acrh) > 0 && !hostSame && nondetBool("second-line") {
+	if len(acrh) > 0 && !hostSame && !deep && nondetBool("second-line") {
 		acrh2 = nondetString("acrh2", ahCap)
 		verifAssume(vAnd(len(acrh2) > 0, !strings.Contains(acrh2, ",")))
 		hreq.Header.Add(HEADER_AccessControlRequestHeaders, acrh2)
